@@ -175,6 +175,7 @@ def run(ctx):
         rule_flow_keys(ctx, fx, config)
         rule_label_rule_only_before_colon(ctx, fx, config)
         rule_variants_in_flow(ctx, fx, config)
+        rule_co_update(ctx, fx, config)
 
 
 def rule_label_rule_only_before_colon(ctx, fx, config, prop="C20"):
@@ -234,6 +235,54 @@ def rule_variants_in_flow(ctx, fx, config, prop="C20"):
         ctx.check(opens, "FLOW", "%s:FLOW:variant-flow-form-opens-mapping:%s" % (prop, nm), "inside flow %s opens a single-entry flow mapping" % nm,
                   "%s has no flow form that opens `{Variant: …}`" % nm, config, ctx.where(f))
     ctx.floor("FLOW.variant-serializers", n, 3, config)
+
+
+def rule_co_update(ctx, fx, config, prop="C20"):
+    """PAIR (co-update): in the folded-block writer, two named cursors that are *added to form a slice bound* (`prev_i +
+    prev_ch_len` = end of the previous character) describe one thing and are written together: inside loops, every block that
+    assigns one assigns the other.  Updating the position alone leaves the length of some earlier character in place: with a
+    multi-byte character at the wrap column the bound falls inside the following word and its first bytes are dropped."""
+    n = 0
+    for f in sorted(fx.fns.values(), key=lambda g: g.npath):
+        if not f.file.endswith("src/wrapping.rs"):
+            continue
+        pairs = set()
+        for b, i, s_ in f.stmts():
+            if s_["k"] != "assign":
+                continue
+            v = f.sym_rvalue(s_["rv"])
+            inner = v
+            if v[0] == "field" and v[1][0] == "bin":
+                inner = v[1]
+            if inner[0] == "bin" and inner[1] in ("Add", "AddWithOverflow") and inner[2][0] == "local" and inner[3][0] == "local" and len(inner[2]) > 2 and len(inner[3]) > 2 and inner[2][2] and inner[3][2]:
+                a, c = inner[2], inner[3]
+                if a[2].startswith("prev") or c[2].startswith("prev") or a[2].endswith("_len") or c[2].endswith("_len"):
+                    pairs.add((a[1], a[2], c[1], c[2]))
+        loops = set().union(*[c for c in f.sccs() if len(c) > 1]) if f.sccs() else set()
+        for la, na, lc, nc in sorted(pairs):
+            wa = {b for b, i, s_ in f.stmts() if s_["k"] == "assign" and not s_["p"]["pr"] and s_["p"]["l"] == la and b in loops}
+            wc = {b for b, i, s_ in f.stmts() if s_["k"] == "assign" and not s_["p"]["pr"] and s_["p"]["l"] == lc and b in loops}
+            if not wa and not wc:
+                continue
+            n += 1
+            ctx.saw(f)
+            heads = [x for c_ in f.sccs() if len(c_) > 1 for x in c_ if any(p_ not in c_ for p_ in f.pred[x])]
+            goal = list(set(heads) | set(f.return_blocks()))
+
+            def partnered(x, others):
+                # the partner is written in the same block, or unavoidably right after / right before on the same iteration
+                if x in others:
+                    return True
+                for y in others:
+                    if f.dominates(x, y) and must_pass(f, list(f.succ[x]), [y], to_blocks=goal):
+                        return True
+                    if f.dominates(y, x) and must_pass(f, list(f.succ[y]), [x], to_blocks=goal):
+                        return True
+                return False
+            lonely = [x for x in wa if not partnered(x, wc)] + [x for x in wc if not partnered(x, wa)]
+            ctx.check(not lonely, "PAIR", "%s:PAIR:co-update:%s:%s+%s" % (prop, f.name, na, nc), "`%s` and `%s` (added to form a slice bound) are always assigned together" % (na, nc),
+                      "%s assigns `%s` without `%s` (or the other way round) on some path of its loop: their sum is used as a byte bound, so a stale partner puts the bound inside a neighbouring character / word" % (f.name, na, nc), config, ctx.where(f, lonely[0] if lonely else None))
+    ctx.floor("PAIR.co-updated-cursors", n, 1, config)
 
 
 def _chars(sym):
